@@ -457,6 +457,10 @@ func (w *World) setRelationsBatch(batch *Batch, relations []relationID, fn func(
 	}
 	w.storage.slices.tables = tables[:0]
 
+	// Register the targets before any callback runs: the relations may be held in a buffer of the caller
+	// that is overwritten by an operation attempted (and rejected) from inside a callback.
+	w.storage.registerTargets(relations)
+
 	// Lock only after the arguments are validated for all tables,
 	// so that a panic does not leave the world locked.
 	lock := w.lock()
@@ -507,8 +511,6 @@ func (w *World) setRelationsBatch(batch *Batch, relations []relationID, fn func(
 	}
 
 	w.storage.slices.relationBatches = batchTables[:0]
-
-	w.storage.registerTargets(relations)
 
 	w.unlock(lock)
 }
